@@ -49,6 +49,7 @@ def setup(rep, tier):
     rep.minimum('R09.5', 3)
     rep.minimum('R09.6', 1)
     rep.minimum('R09.7', 3)
+    rep.minimum('R09.8', 1)
 
 
 def T_minmax(e):
@@ -625,6 +626,8 @@ def r09_6(rep, prog):
 def check(rep, prog, tier):
     r09_6(rep, prog)
     r09_7(rep, prog)
+    from . import chanstate
+    chanstate.check(rep, 'R09.8', prog, 'celt_decode_lost', '')
     r09_1(rep, prog)
     r09_2(rep, prog)
     r09_3(rep, prog)
